@@ -205,6 +205,21 @@ func evilNames(sb *sandbox, depth int) []string {
 	if depth == 0 {
 		names = append(names, "a/b/../../../sibdir", "a/b/../../../canary-sibling.txt", "hello.txt/../../sibdir")
 	}
+	// dot-dots, then names, then more dot-dots than names: k up, j down, m up. Wherever the count starts — at the
+	// current directory, or at the root once leading dot-dots have been dropped — the walk ends at most at S:
+	// max(k, k-j+m) <= depth+2 and m-j <= 2
+	for _, kjm := range [][3]int{{1, 1, 2}, {1, 2, 3}, {1, 2, 4}, {2, 1, 2}, {1, 1, 3}} {
+		k, j, m := kjm[0], kjm[1], kjm[2]
+		if k > depth+2 || k-j+m > depth+2 || m-j > 2 {
+			continue
+		}
+		for _, mid := range []string{"nosuch/deeper/", "a/b/"} {
+			down := strings.Join(strings.Split(mid, "/")[:j], "/") + "/"
+			for _, tgt := range []string{"canary-sibling.txt", "canary-top.txt"} {
+				names = append(names, strings.Repeat("../", k)+down+strings.Repeat("../", m)+tgt)
+			}
+		}
+	}
 	// through a link to the root and one level up: lexically inside, on the host S/mid (never higher)
 	via := []string{"self", "a/up-root", "a/b/up-root", "pub/up-root"}
 	if depth >= 1 {
